@@ -2,12 +2,15 @@
 (* Phase G case generator for C14: every pair (a, b) of directory trees of the universe such that b
    is obtained from a by at most K edits (remove an entry; put a leaf, an empty directory or a
    directory subtree at a free or occupied slot -- which covers add, replace leaf, replace a
-   directory by a leaf and vice versa, and nested edits).  One printed case per distinct pair. *)
+   directory by a leaf and vice versa, a populated directory by another populated directory with
+   other own data, and nested edits; change the own data of a directory, the root included,
+   keeping its entries).  One printed case per distinct pair.  a ranges over Sources (a slice
+   of the universe when NShards > 1). *)
 EXTENDS DagUniverse, SequencesExt, TLC, Json
 CONSTANT K
 VARIABLES a, b, n
 Flat(T) == LET ps == SetToSeq(DOMAIN T) IN [i \in 1..Len(ps) |-> <<ps[i], T[ps[i]]>>]
-GInit == a \in DirTrees /\ b = a /\ n = 0
+GInit == a \in Sources /\ b = a /\ n = 0
 GNext == n < K /\ b' \in Edits(b) /\ n' = n + 1 /\ a' = a
 GSpec == GInit /\ [][GNext]_<<a, b, n>>
 GView == <<a, b>>
